@@ -45,7 +45,7 @@ CLAIMED["C14"] = (
     "paragraph migration equals reading-order concatenation of the non-empty cells.  Tied to the code by exact "
     "correspondence on the property's bounded-exhaustive space (all corner-pair orientations) plus seeded larger tables with text.",
     "Trusted: paragraphs abstracted to their text; grid dimension constancy is structural in the model and checked on the real "
-    "a:tc counts; frame-size notification is correspondence + direct oracle (definitional in the model).",
+    "a:tc counts; frame-size notification: setItem model (refused when the value or the resulting total cannot be written; runSizes_frame) compared on size histories with edge values.",
     "Lean 4 proof (refinement to disjoint rectangle sets, induction over op sequences) + bounded-exhaustive correspondence",
     "DESIGN.md §5 C14",
 )
